@@ -7,7 +7,7 @@
    binomial distribution function.  C04_quantile is therefore a statement about
    choose with exact arithmetic (label: partial with respect to float64
    rounding; the implementation is compared within a band on every run). *)
-From VF.C04 Require Import Model ProofsSearch ProofsBinom ProofsChoose ProofsProtocol ProofsManager.
+From VF.C04 Require Import Model ProofsSearch ProofsBinom ProofsChoose ProofsProtocol ProofsManager ProofsVrf.
 From Coq Require Import Lia.
 Local Open Scope Z_scope.
 
@@ -199,6 +199,74 @@ Theorem C04_priority_max :
 Proof. exact accepted_priority_is_max. Qed.
 Print Assumptions C04_priority_max.
 
+(* ---- VRF uniqueness from the decoding of the proof ------------------------------ *)
+(* the only encodings of the VRF point ProofToHash accepts: 65 bytes
+   "04 || X || Y" with X, Y below the field prime and (X,Y) on the curve *)
+Theorem C04_vrf_accepted_encodings :
+  forall (field_p : Z) (on_curve : Z -> Z -> bool) d x y,
+    unmarshal field_p on_curve d = Some (x, y) ->
+    exists rest, d = 4 :: rest /\ length rest = 64%nat /\
+                 x = be_val (firstn 32 rest) /\ y = be_val (skipn 32 rest) /\
+                 x < field_p /\ y < field_p /\ on_curve x y = true.
+Proof. exact unmarshal_some. Qed.
+Print Assumptions C04_vrf_accepted_encodings.
+
+(* group-level hypothesis: the discrete-log-equality check passes for one curve
+   point per key and message.  Then every proof (any bytes) accepted for (key,
+   message) yields the same VRF output ... *)
+Theorem C04_vrf_output_unique :
+  forall (PK : Type) (field_p : Z) (on_curve : Z -> Z -> bool)
+         (dleq_check : PK -> list Z -> Z -> Z -> Z -> Z -> list Z -> bool) (sha256 : list Z -> Z),
+    (forall pk m s t x y d s' t' x' y' d',
+        on_curve x y = true -> on_curve x' y' = true ->
+        dleq_check pk m s t x y d = true -> dleq_check pk m s' t' x' y' d' = true ->
+        x = x' /\ y = y') ->
+    forall pk m proof proof' h h',
+      bytes proof -> bytes proof' ->
+      proof_to_hash_bytes PK field_p on_curve dleq_check sha256 pk m proof = Some h ->
+      proof_to_hash_bytes PK field_p on_curve dleq_check sha256 pk m proof' = Some h' ->
+      h = h'.
+Proof. exact vrf_output_unique. Qed.
+Print Assumptions C04_vrf_output_unique.
+
+(* ... so for one key, seed, round index, step, stake and thresholds the
+   verifier accepts ONE seat count, whatever proofs are presented: nobody can
+   claim other seats than the VRF gives ... *)
+Theorem C04_seats_unique :
+  forall (PK : Type) (field_p : Z) (on_curve : Z -> Z -> bool)
+         (dleq_check : PK -> list Z -> Z -> Z -> Z -> Z -> list Z -> bool) (sha256 : list Z -> Z),
+    (forall pk m s t x y d s' t' x' y' d',
+        on_curve x y = true -> on_curve x' y' = true ->
+        dleq_check pk m s t x y d = true -> dleq_check pk m s' t' x' y' d' = true ->
+        x = x' /\ y = y') ->
+    forall pk seed index role proof proof' sub sub' th stake total,
+      bytes proof -> bytes proof' ->
+      vrf_verify_sortition PK (list Z) (proof_to_hash_bytes PK field_p on_curve dleq_check sha256)
+                           pk seed index role proof sub th stake total = SvOk ->
+      vrf_verify_sortition PK (list Z) (proof_to_hash_bytes PK field_p on_curve dleq_check sha256)
+                           pk seed index role proof' sub' th stake total = SvOk ->
+      sub = sub'.
+Proof. exact seats_unique. Qed.
+Print Assumptions C04_seats_unique.
+
+(* ... and ONE priority *)
+Theorem C04_priority_unique :
+  forall (PK : Type) (field_p : Z) (on_curve : Z -> Z -> bool)
+         (dleq_check : PK -> list Z -> Z -> Z -> Z -> Z -> list Z -> bool) (sha256 : list Z -> Z),
+    (forall pk m s t x y d s' t' x' y' d',
+        on_curve x y = true -> on_curve x' y' = true ->
+        dleq_check pk m s t x y d = true -> dleq_check pk m s' t' x' y' d' = true ->
+        x = x' /\ y = y') ->
+    forall keccak pk seed index role proof proof' prio prio' sub sub' th stake total,
+      bytes proof -> bytes proof' ->
+      vrf_verify_priority PK (list Z) (proof_to_hash_bytes PK field_p on_curve dleq_check sha256) keccak
+                          pk seed index role proof prio sub th stake total = PvResult true ->
+      vrf_verify_priority PK (list Z) (proof_to_hash_bytes PK field_p on_curve dleq_check sha256) keccak
+                          pk seed index role proof' prio' sub' th stake total = PvResult true ->
+      prio = prio' /\ sub = sub'.
+Proof. exact priority_unique. Qed.
+Print Assumptions C04_priority_unique.
+
 (* ---- prover side: the sortition manager -------------------------------------- *)
 (* Over all histories of ClearStepView / isProposer / isValidator / GetStepView
    (validator queries for the vote steps, as Voter.vote issues them): every view
@@ -353,3 +421,27 @@ Proof.
   - vm_compute. repeat split; discriminate || reflexivity.
 Qed.
 Print Assumptions C04_nonvacuous_manager.
+
+(* decoding: a toy group check that satisfies the uniqueness hypothesis (it
+   passes for the point (7, 9) only); the canonical encoding is accepted, the
+   same point under another tag byte or with a trailing byte is not *)
+Definition toy_dleq (pk : unit) (m : list Z) (s t x y : Z) (d : list Z) : bool := (x =? 7) && (y =? 9).
+Definition toy_point : list Z := repeat 0 31 ++ [7] ++ repeat 0 31 ++ [9].
+Definition toy_proof (tag : Z) : list Z := repeat 1 64 ++ [tag] ++ toy_point.
+Definition toy_p2h_bytes := proof_to_hash_bytes unit 1000 (fun _ _ => true) toy_dleq (fun d => be_val d mod 1000003).
+
+Example C04_nonvacuous_vrf_decoding :
+  (forall pk m s t x y d s' t' x' y' d',
+      true = true -> true = true ->
+      toy_dleq pk m s t x y d = true -> toy_dleq pk m s' t' x' y' d' = true -> x = x' /\ y = y') /\
+  bytes (toy_proof 4) /\
+  toy_p2h_bytes tt [] (toy_proof 4) <> None /\
+  toy_p2h_bytes tt [] (toy_proof 2) = None /\ toy_p2h_bytes tt [] (toy_proof 0) = None /\
+  toy_p2h_bytes tt [] (toy_proof 4 ++ [0]) = None.
+Proof.
+  split.
+  - intros pk m s t x y d s' t' x' y' d' _ _ H H'. unfold toy_dleq in *.
+    apply andb_true_iff in H. apply andb_true_iff in H'. lia.
+  - split; [repeat constructor; unfold is_byte; lia|]. vm_compute. repeat split; discriminate || reflexivity.
+Qed.
+Print Assumptions C04_nonvacuous_vrf_decoding.
